@@ -54,6 +54,15 @@ def jSym (e : Sym) : Json :=
   Json.mkObj [("pos", jFace e.pos), ("neg", jFace e.neg), ("meas", natList e.meas),
     ("frees", jarr (e.frees.map Json.str)), ("val", optJ jSc e.val)]
 
+def asISym (j : Json) : R ISym := do
+  let ns ← getArr j "names"
+  pure { pos := ← asFace (← j.getObjVal? "pos"), neg := ← asFace (← j.getObjVal? "neg"),
+         names := ← ns.mapM (·.getStr?), val := ← getOpt j "val" asSc }
+
+def jISym (e : ISym) : Json :=
+  Json.mkObj [("pos", jFace e.pos), ("neg", jFace e.neg), ("names", jarr (e.names.map Json.str)),
+    ("val", optJ jSc e.val)]
+
 def asVal (j : Json) : R Val :=
   match j.getObjVal? "sc" with
   | .ok v => do pure (.sc (← asSc v))
@@ -66,7 +75,7 @@ def asVal (j : Json) : R Val :=
   | .error _ => match j.getObjVal? "sym" with
   | .ok v => do pure (.sym (← asSym v))
   | .error _ => match j.getObjVal? "rrt" with
-  | .ok v => do pure (.rrt (← asSym v))
+  | .ok v => do pure (.rrt (← asISym v))
   | .error _ => do pure (.pname (← getNat j "pname"))
 
 def jVal : Val → Json
@@ -75,7 +84,7 @@ def jVal : Val → Json
   | .lst l => Json.mkObj [("lst", jScList l)]
   | .arr sh d => Json.mkObj [("arr", Json.mkObj [("shape", natList sh), ("data", jScList d)])]
   | .sym e => Json.mkObj [("sym", jSym e)]
-  | .rrt e => Json.mkObj [("rrt", jSym e)]
+  | .rrt e => Json.mkObj [("rrt", jISym e)]
   | .pname i => Json.mkObj [("pname", jnat i)]
 
 def asKw (j : Json) : R (List (String × Val)) := do
@@ -183,12 +192,12 @@ def res (f : α → Json) : Except Err α → Json
   | .ok a => Json.mkObj [("ok", f a)]
   | .error e => Json.mkObj [("err", Json.str (errStr e))]
 
-/-- the parse table `P` of a request: `"parse": [[string, Sym], …]` -/
-def getParse (j : Json) : R (String → Option Sym) := do
+/-- the parse table `P` of a request: `"parse": [[string, ISym], …]` -/
+def getParse (j : Json) : R (String → Option ISym) := do
   let tbl ← match j.getObjVal? "parse" with
     | .ok (Json.arr a) => a.toList.mapM fun x => do
         match (← x.getArr?).toList with
-        | [k, v] => do pure ((← k.getStr?), (← asSym v))
+        | [k, v] => do pure ((← k.getStr?), (← asISym v))
         | _ => throw "parse entry"
     | _ => pure []
   pure fun s => (tbl.find? (·.1 = s)).map (·.2)
